@@ -189,6 +189,16 @@ package ociauth
 //@   loop 0 step forall k string :: old(in(f.Auths, k)) && old(len(f.Auths[k].derivedFrom)) == 0 && k != addr ==>
 //@     in(f.Auths, k) && f.Auths[k] == old(f.Auths[k])
 
+// urlHost: the host part of a URL-form key is what stands between the scheme
+// (http:// or https://, if any) and the first following slash - nothing of the
+// host name itself is dropped.
+//@ pure func hostOf(rest string, host string) bool =
+//@   hasPrefix(rest, host) && !contains(host, "/") && (len(host) == len(rest) || rest[len(host)] == '/')
+//@ func urlHost
+//@   ensures[http] hasPrefix(url, "http://") ==> hostOf(url[7:], result)
+//@   ensures[https] hasPrefix(url, "https://") ==> hostOf(url[8:], result)
+//@   ensures[no-scheme] !hasPrefix(url, "http://") && !hasPrefix(url, "https://") ==> hostOf(url, result)
+
 //@ func decodeAuth
 //@   modifies nothing
 //@   ensures[split-at-the-first-colon] result.2 == nil ==> result.0 != "" && !contains(result.0, ":") &&
